@@ -74,6 +74,9 @@ pub enum OffSpec {
     FromFar(u32),
     /// absolute distance (clamped to what is reachable)
     Abs(u32),
+    /// INVALID on purpose: k+1 bytes beyond everything reachable (probes for C07/C09); the frame is
+    /// marked invalid and the executor substitutes zero bytes
+    Beyond(u8),
 }
 
 #[derive(Clone, Debug, Default)]
@@ -83,6 +86,8 @@ pub struct SynthOut {
     pub window_size: u64,
     /// largest regenerated size of a compressed block
     pub max_block_regen: usize,
+    /// the spec asked for a deliberately invalid offset
+    pub invalid: bool,
 }
 
 pub struct Rng(pub u64);
@@ -148,6 +153,7 @@ pub fn synth(spec: &FrameSpec, dict: Option<&Dict>, over_long: bool) -> SynthOut
     let mut content: Vec<u8> = vec![];
     let mut exec: Vec<Option<ExecBlock>> = vec![];
     let mut max_block_regen = 0usize;
+    let mut invalid = false;
     for b in &spec.blocks {
         match b {
             BlockSpec::Raw { data } => {
@@ -186,6 +192,18 @@ pub fn synth(spec: &FrameSpec, dict: Option<&Dict>, over_long: bool) -> SynthOut
                     } else {
                         in_frame
                     };
+                    if let OffSpec::Beyond(k) = s.off {
+                        // beyond *everything that exists* (all output so far plus the whole dictionary),
+                        // not merely beyond the window
+                        let d = (produced + dict_content.len()) as u32 + 1 + k as u32;
+                        let ml = (s.ml.max(3) as usize).min(131074).min(budget);
+                        resolve_offset(d + 3, ll as u32, &mut st.rep);
+                        content.resize(content.len() + ml, 0);
+                        budget -= ml;
+                        seqs.push((ll as u32, ml as u32, d + 3));
+                        invalid = true;
+                        continue;
+                    }
                     if reach == 0 {
                         // nothing to copy from yet: put the literals back and stop
                         content.truncate(produced - ll);
@@ -209,6 +227,7 @@ pub fn synth(spec: &FrameSpec, dict: Option<&Dict>, over_long: bool) -> SynthOut
                         OffSpec::Frac(f) => (1 + ((f as u64 * (reach as u64 - 1)) >> 16) as u32) + 3,
                         OffSpec::FromFar(k) => (reach as u32 - (k as u64).min(reach as u64 - 1) as u32) + 3,
                         OffSpec::Abs(d) => d.clamp(1, reach as u32) + 3,
+                        OffSpec::Beyond(_) => unreachable!(),
                     };
                     let d = resolve_offset(of_value, ll as u32, &mut st.rep) as usize;
                     debug_assert!(d >= 1 && d <= reach);
@@ -343,6 +362,7 @@ pub fn synth(spec: &FrameSpec, dict: Option<&Dict>, over_long: bool) -> SynthOut
         content,
         window_size: if spec.single_segment { total } else { window },
         max_block_regen,
+        invalid,
     }
 }
 
